@@ -1,5 +1,5 @@
 """Configuration of the C01 check (see DESIGN.md section 6)."""
-PROP = {'counts': {'quick': 240, 'thorough': 12000},
+PROP = {'counts': {'quick': 240, 'thorough': 6000},
  'rule': 'one case = a sequential program over the embedded API (put/delete/get/ApplyBatch/transaction '
          'commit+rollback/flush/close+reopen/layer dump) with a small memtable so that data moves through '
          'active table, immutable tables and SSTables; every Get, the reported last sequence and the logical '
